@@ -1,0 +1,6 @@
+//go:build !verif
+
+package main
+
+// vt is the verification trace hook; without the build tag verif it does nothing.
+func vt(ev string, kv ...interface{}) {}
